@@ -15,7 +15,7 @@ from vf.vworld import base, peer
 METHODS = ['GET', 'POST', 'OPTIONS', 'PUT', 'DELETE', 'HEAD']
 EIOS = [None, '4', '3', '5', '', '44']
 TRANSPORTS = [None, 'polling', 'websocket', 'bogus']
-SIDKINDS = ['absent', 'live_polling', 'live_upgraded', 'mid_upgrade', 'closed', 'unknown', 'rejected', 'closing']
+SIDKINDS = ['absent', 'live_polling', 'live_upgraded', 'mid_upgrade', 'closed', 'unknown', 'rejected', 'closing', 'suffixed', 'prefix']
 HDRS = ['none', 'both', 'upgrade_only', 'connection_only', 'other_protocol']
 JS = [None, '0', '5', 'x', '']
 CFGS = ['both', 'polling', 'websocket', 'no_upgrades']     # no_upgrades: both transports, allow_upgrades=False (governs the advertisement only)
@@ -78,6 +78,9 @@ def prepare(impl, cfg):
         r = w.http('GET', peer.BASEQ, headers={'X-Reject': '1'})
         w.run()
         sids['rejected'] = [ev[1] for ev in w.events if ev[0] == 'connect'][-1]
+    if 'live_polling' in sids:
+        sids['suffixed'] = sids['live_polling'] + 'x'        # 21 characters: a live id plus one more
+        sids['prefix'] = sids['live_polling'][:-1]           # 19 characters: a live id minus its last one
     w.call('send', esid, 'queued-1')
     w.call('send', esid, 'queued-2')
     w.run()
